@@ -5,6 +5,7 @@ tables) against `pmodel getopt` (L1 printed from Spec.Getopt.getopt, L2 from Mod
 Cases: EXHAUSTIVE enumeration of every argv of length <= 3 (quick) / <= 4 (thorough) over a
 per-table alphabet of 15..16 words, a directed abandoned-parse sweep, and random vectors up to length 8."""
 import itertools
+import os
 import vlib
 
 MODULES = ["Percival.Properties.C18"]
@@ -46,10 +47,11 @@ def op(t, k, argv0, words):
 
 def exhaustive_ops(tier):
     """every argv (after a fixed argv[0]) of length 0..maxlen over the table's alphabet"""
-    maxlen = 3 if tier == "quick" else 4
     ops, counts = [], {}
     for t in range(NTABLES):
         n0 = len(ops)
+        # thorough: one more word for the table of the repo's own test (t0)
+        maxlen = 3 if tier == "quick" else (5 if t == 0 else 4)
         for ln in range(maxlen + 1):
             for words in itertools.product(ALPHABET[t], repeat=ln):
                 ops.append(op(t, 0, "p", words))
@@ -169,20 +171,82 @@ def components(ctx):
         classify=classify)]
 
 
+ASSUMPTIONS = [
+    "argv words and option names contain no NUL byte (they are C strings)",
+    "the option table registers without DIE(): names are '-X' (X != '-') or '--name', and no name is denoted "
+    "(exactly or as name=...) by an earlier one",
+    "argc <= INT_MAX (optind is a Nat in the model)",
+    "user code follows the documented loop shape and sets optreset = 1 before parsing another vector",
+]
+TRUSTED = ["pmodel (compiled Lean model and Spec)", "harness/h_getopt.c (tables mirrored in Driver/Getopt.lean)",
+           "gcc ASan/UBSan as the out-of-bounds detector in the real code", "libc strncmp/strcmp/strlen"]
+
+
+def shrink_words(ctx, comp, exe, fail, budget=150):
+    """vlib.shrink minimises the op list; this also minimises every argv (drop words, k -> 0,
+    shorten words), keeping the failure kind."""
+    best = vlib.shrink(ctx, comp, exe, fail)
+    case, kind = list(best["case"]), best["kind"]
+
+    def attempt(cand):
+        nonlocal case, best, budget
+        if budget <= 0:
+            return False
+        budget -= 1
+        f = vlib.still_fails(ctx, comp, exe, cand, kind)
+        if f:
+            case, best = cand, f[0]
+            return True
+        return False
+
+    changed = True
+    while changed and budget > 0:
+        changed = False
+        for i in range(len(case)):
+            t = case[i].split()
+            if t[0] != "parse" or len(t) < 4:
+                continue
+            j = len(t) - 1
+            while j >= 4:                                   # drop a word
+                if attempt(case[:i] + [" ".join(t[:j] + t[j + 1:])] + case[i + 1:]):
+                    t = case[i].split()
+                    changed = True
+                j -= 1
+            if t[2] != "0" and attempt(case[:i] + [" ".join(t[:2] + ["0"] + t[3:])] + case[i + 1:]):
+                t = case[i].split()
+                changed = True
+            for j in range(3, len(t)):                      # shorten a word from the right
+                while t[j] != "-" and len(t[j]) > 2:
+                    cand = t[:j] + [t[j][:-2]] + t[j + 1:]
+                    if attempt(case[:i] + [" ".join(cand)] + case[i + 1:]):
+                        t = case[i].split()
+                        changed = True
+                    else:
+                        break
+    return best
+
+
 def check(ctx):
     comps = components(ctx)
     # the exhaustive part of the enumeration is recorded in the distribution (counts measured by the generator)
     ex, counts = exhaustive_ops(ctx.tier)
     for k, v in counts.items():
         ctx.cov["distribution"][k] = v
-    ctx.cov["exhaustive_subspace"] = ("all argv of length <= %d over the per-table alphabets, all 4 tables: %d parses"
-                                      % (3 if ctx.tier == "quick" else 4, len(ex)))
-    return vlib.standard_check(
-        ctx, MODULES, comps,
-        assumptions=["argv words and option names contain no NUL byte (they are C strings)",
-                     "the option table registers without DIE(): names are '-X' (X != '-') or '--name', and no name is "
-                     "denoted (exactly or as name=...) by an earlier one",
-                     "argc <= INT_MAX (optind is a Nat in the model)",
-                     "user code follows the documented loop shape and sets optreset = 1 before parsing another vector"],
-        trusted=["pmodel (compiled Lean model and Spec)", "harness/h_getopt.c (tables mirrored in Driver/Getopt.lean)",
-                 "gcc ASan/UBSan as the out-of-bounds detector in the real code", "libc strncmp/strcmp/strlen"])
+    ctx.cov["exhaustive_subspace"] = ("every argv of length <= %s over the per-table alphabets, all %d tables: %d parses"
+                                      % ("3" if ctx.tier == "quick" else "4 (t0: 5)", NTABLES, len(ex)))
+    ctx.assumptions += ASSUMPTIONS
+    ctx.trusted += TRUSTED
+    vlib.proof_audit(ctx, MODULES)
+    for comp in comps:
+        ctx.rules.append("%s: %s" % (comp.name, comp.rule))
+        fails = vlib.check_component(ctx, comp)
+        if not ctx.proof_ok and not [f for f in fails if f["kind"] == "L1"]:
+            fails += vlib.check_component(ctx, comp, budget_mult=10)     # broken proof: enlarge the search
+        # standard flow + minimisation inside the argument vectors of the shortest property-level failures
+        exe = os.path.join(ctx.tmp, comp.name)
+        l1 = sorted([f for f in fails if f["kind"] == "L1"], key=lambda x: len(" ".join(x["case"])))
+        if l1 and os.path.exists(exe):
+            small = [shrink_words(ctx, comp, exe, f) for f in l1[:3]]
+            fails = small + l1[3:] + [f for f in fails if f["kind"] != "L1"]
+        vlib.process_failures(ctx, comp, fails)
+    return vlib.finish(ctx, "proof", MODULES)
